@@ -98,15 +98,43 @@ def run(ctx):
             if not any("deprecated" in c and pol for c, pol in conds.items()):
                 r.fail("C12.order", conf.key + ":early-return", "Rule.configure can return without applying the configuration on a non-deprecated path", conf.loc(node))
     cr = p.function("vsg.apply_rules:configure_rules")
-    _order_check(r, "C12.order", cr, ["configure_rules_per_rule_option", "configure_rules_per_file_list_option", "configure_rules_per_file_rules_option"], "rule section, then file_list entry, then file_rules entry")
-    # each per-file helper passes its own section constant
-    for key, sec in (("vsg.apply_rules:configure_rules_per_file_list_option", "file_list"), ("vsg.apply_rules:configure_rules_per_file_rules_option", "file_rules")):
-        fi = p.function(key)
-        cs = [c for c in _calls(fi.node) if callee_text(c) == "configure_rules_per_option"]
-        if len(cs) == 1 and cs[0].args and isinstance(cs[0].args[-1], ast.Constant) and cs[0].args[-1].value == sec:
-            r.ok("C12.order", key, "section %r" % sec)
-        else:
-            r.fail("C12.order", key, "%s does not configure from section %r" % (fi.name, sec), fi.loc())
+
+    def step_of(fi_, call, depth=0):
+        """'rule' | 'file_list' | 'file_rules' | None - looking through one-statement forwarders of the same module."""
+        ct = callee_text(call)
+        if ct.endswith(".configure") and ct.split(".")[0] in ("oRules",):
+            return "rule"
+        if ct == "configure_rules_per_option" and call.args and isinstance(call.args[-1], ast.Constant):
+            return call.args[-1].value
+        if isinstance(call.func, ast.Name) and depth < 2:
+            ent = p.resolve_expr(fi_.module, call.func)
+            if ent and ent[0] == "func" and ent[1].module is fi_.module:
+                body = [st for st in ent[1].node.body if not (isinstance(st, ast.Expr) and isinstance(st.value, ast.Constant))]
+                if len(body) == 1 and isinstance(body[0], ast.Expr) and isinstance(body[0].value, ast.Call):
+                    return step_of(ent[1], body[0].value, depth + 1)
+        return None
+
+    steps = {}
+    for c in _calls(cr.node):
+        k = step_of(cr, c)
+        if k in ("rule", "file_list", "file_rules"):
+            steps.setdefault(k, []).append(c)
+    seq = ["rule", "file_list", "file_rules"]
+    fcr = Facts(cr.node)
+    okc = True
+    for k in seq:
+        if len(steps.get(k, [])) != 1:
+            okc = False
+            r.fail("C12.order", "%s:%s:count" % (cr.key, k), "configure_rules applies the %s level %d time(s) (expected once)" % (k, len(steps.get(k, []))), cr.loc())
+    if okc:
+        for i, k in enumerate(seq):
+            fa = fcr.facts_at(steps[k][0])
+            for prev in seq[:i]:
+                if ("call", callee_text(steps[prev][0])) not in fa or steps[prev][0].lineno > steps[k][0].lineno:
+                    okc = False
+                    r.fail("C12.order", "%s:%s-after-%s" % (cr.key, k, prev), "rule section, then file_list entry, then file_rules entry: the %s level is not preceded by the %s level on every path (a less specific level would override a more specific one)" % (k, prev), cr.loc(steps[k][0]))
+        if okc:
+            r.ok("C12.order", cr.key + ":rule->file_list->file_rules", "rule section, then file_list entry, then file_rules entry (each once, in this order on every path)")
     # per-file configuration re-enters rule_list.configure (so validation applies)
     per = p.function("vsg.apply_rules:configure_rules_per_option")
     if any(callee_text(c) == "oRules.configure" for c in _calls(per.node)):
